@@ -1145,7 +1145,13 @@ def check(run):
                     'replacedbox_layout); oracles of the C13_source_* theorems: image.get_intrinsic_size (answers the intrinsic '
                     'triple) and the decorated block_level_width called at point 3 of replaced_box_width (sets box.width); '
                     'max_width / max_height finite (float inf is outside the value domain of Py.v: the inf case is tied by '
-                    'the sizing-direct correspondence stream only)']
+                    'the sizing-direct correspondence stream only)',
+                    'gen/GenInlineReplaced.v (inline_replaced_box_layout, inline_replaced_box_width_height, whole bodies): '
+                    'their callees are oracle statements that answer the mutated box (inline_replaced_box_width_height; '
+                    'replaced_box_width / replaced_box_height, decorated and `.without_min_max`, min_max_auto_replaced): the '
+                    'theorems fix which are called, in which order and on which box, not what the callees do (that is '
+                    'C13_source_replaced_box_* / _min_max_auto_replaced); the attribute without_min_max of a function under a '
+                    'handle_min_max_* decorator is resolved by name (checked: one module-level def under that decorator)']
     run.assumptions += ['SVG rendering itself (viewBox-to-viewport mapping inside svg/) is not judged: for vector images only the used '
                         'size / background layer geometry is checked',
                         'pixel-level losslessness, Pillow, zlib: runtime monitor only (decoded XObject = Pillow decoding of the source)',
